@@ -16,7 +16,7 @@ import (
 func init() { Registry["C17"] = C17 }
 
 var c17Paths = []string{"a.txt", "b.txt", "sub/c.txt", "a b.txt", "-dash.txt", "q'uote.txt", "dollar$HOME.txt", "star*.txt", "semi;colon.txt", "UP.TXT", "two  blanks.txt", "paren(1).txt", "amp&.txt", "hash#.txt", "tilde~.txt"}
-var c17Contents = []string{"one", "two words", "", "it's", `q"q`, "$HOME", "*", "a  b", " lead", "trail ", "-n", "back\\slash", "semi;colon", "line1\nline2", "tab\tsep", "`id`", "$(id)", "x > y", "100%", "#hash", "a&b", "(paren)", "~", "!bang"}
+var c17Contents = []string{"one", "two words", "", "it's", `q"q`, "$HOME", "*", "a  b", " lead", "trail ", "-n", "back\\slash", "semi;colon", "line1\nline2", "tab\tsep", "`id`", "$(id)", "x > y", "100%", "#hash", "a&b", "(paren)", "~", "!bang", "tail\n", "\n", "two\n\n", "\nlead"}
 
 type c17Op struct {
 	kind    string // W A R E  RR (two reads in one statement: content holds the second path)
